@@ -232,6 +232,23 @@ def r2(ctx):
                     y = yv['ch'][0]
                 else:
                     break
+        # the key describes the object that is constructed: a parameter that is part of the key is not changed any more
+        # between its insertion into the key and the construction (derive normalises bitCount = 0 to the width of the base
+        # type; a key taken before that is the same for every width a template reference stands for)
+        asg_all = list(fn.assignments())
+        for c in fn.all('CXXOperatorCallExpr'):
+            cv = fn.nodes[c]
+            if cv.get('op') != '<<' or len(cv.get('args', [])) != 2 or fn.block_of(c) is None:
+                continue
+            for y in fn.walk(cv['args'][1]):
+                yv = fn.nodes[y]
+                if yv['k'] != 'DeclRefExpr' or yv.get('rk') not in ('param', 'local') or yv.get('name') not in keyleaves:
+                    continue
+                for nid2, d2, r2, o2, l2 in asg_all:
+                    if d2 == yv.get('decl') and o2 != 'init' and fn.block_of(nid2) is not None and \
+                            fn.reaches_point(fn.pos(c)[0], fn.pos(nid2), set(), start_idx=fn.pos(c)[1] + 1) and \
+                            any(fn.block_of(n_) is not None and fn.reaches_point(fn.pos(nid2)[0], fn.pos(n_), set(), start_idx=fn.pos(nid2)[1] + 1) for n_ in news):
+                        narrowed.append('%s is changed (line %d) after it was written into the key' % (yv.get('name'), fn.line_of(nid2)))
         # bit counts for which an object is constructed at all in this overload
         built = set()
         for n in news:
@@ -261,7 +278,7 @@ def r2(ctx):
             missing = sorted(set(missing))
             if narrowed:
                 ctx.ob('C12.R2', fn, n, False, 'key parts of derive(%s)' % ','.join(p['name'] for p in fn.params[:-1]),
-                       'a key part is narrowed before it is written into the key: %s' % '; '.join(sorted(set(narrowed))))
+                       'a key part does not carry the value the object is built with: %s' % '; '.join(sorted(set(narrowed))))
             ctx.ob('C12.R2', fn, n, not missing,
                    'new NumberDataType in derive(%s)' % ','.join(p['name'] for p in fn.params[:-1]),
                    ('constructor argument(s) %s vary independently of the cache key (key covers %s, a conditional key part '
